@@ -33,6 +33,8 @@ type Engine struct {
 	fa     map[*ssa.Function]*FuncAnalysis
 	acc    map[*ssa.Function]*Node
 	pure   map[*ssa.Function][]*Node
+	vh     map[*ssa.Function][]*Node
+	sites  map[*ssa.Package]map[*ssa.Function]int
 	sums   map[string]FactSet
 	inprog map[string]bool
 	// statistics
